@@ -136,6 +136,13 @@ example : ∃ c, c < 2 ∧ rA.get [2, c] = (rowReduce .max rA rA.fill).get [2] :
 theorem reduceCore_none (op : RedOp) (x : COO Int) (kd : Bool) :
     COO.reduceCore op x none kd = COO.reduceCore op x (some (List.range x.shape.length)) kd := rfl
 
+/-- `transpose_get` (property C08) in the form the reduction theorems take it -/
+theorem transposeGetInt : ∀ (y : COO Int) (p : List Nat), p.Perm (List.range y.shape.length) → y.WF →
+    (keysOf y.entries).Nodup → ∀ j, InB j (gather y.shape p) →
+    (y.transposeCore p).get j = y.get (gather j (invPerm p)) :=
+  fun y p hp hwf hnd j hj => (SparseV.C08.transpose_get y p hp hwf hnd j hj).1
+
+
 /-- **reduce_add_get** (`sum` over arbitrary axes, `keepdims=False`).  For a canonical `x` (well-formed,
 strictly increasing linear locations — what every COO constructor path establishes) and distinct
 in-range `axes` (what `reduce` has checked), `reduceCore .add x (some axes) false` succeeds; its
@@ -145,11 +152,8 @@ shape, fill `x.fill * (number of reduced cells)`, and for every in-bounds kept-i
 coordinates r)` (`reduce_src_spec` spells that index out).  Covers transpose, both reshapes, the row
 reduction, the fill correction, pruning and the scalar extraction, for any rank, any set of axes
 (none, some, all), empty extents included.
-`transpose_get` (proved on branch p08) is taken as a hypothesis argument. -/
+`transpose_get` is property C08's theorem (`transposeGetInt`). -/
 theorem reduce_add_get (x : COO Int) (axes : List Nat)
-    (transpose_get : ∀ (y : COO Int) (p : List Nat), p.Perm (List.range y.shape.length) → y.WF →
-      (keysOf y.entries).Nodup → ∀ j, InB j (gather y.shape p) →
-      (y.transposeCore p).get j = y.get (gather j (invPerm p)))
     (hwf : x.WF) (hs : SortedLin x.shape x.entries) (hnd : axes.Nodup)
     (hr : ∀ a ∈ axes, a < x.shape.length) :
     ∃ out : COO Int,
@@ -163,7 +167,7 @@ theorem reduce_add_get (x : COO Int) (axes : List Nat)
           x.get (gather (j ++ r)
             (invPerm (((List.range x.shape.length).filter fun a => !axes.contains a) ++ axes)))).sum := by
   obtain ⟨A, out, hAs, hAwf, hAsort, hAf, hAget, hred, hOs, hOf, hOget⟩ :=
-    reduceCore_lift .add x axes transpose_get (by simp [RedOp.super?]) hwf hs hnd hr _ rfl
+    reduceCore_lift .add x axes transposeGetInt (by simp [RedOp.super?]) hwf hs hnd hr _ rfl
   obtain ⟨_, hRf, hRget⟩ := rowReduce_add_get A _ _ hAs hAwf hAsort
   refine ⟨out, hred, hOs, by rw [hOf, hRf, hAf], fun j hj => ?_⟩
   rw [hOget j hj, hRget, allIdx_eq_map_unravel, List.map_map]
@@ -179,9 +183,6 @@ the code's behaviour on that input is the registered finding F-reduce-empty-axis
 kept extents as shape, the fill value unchanged, and element `j` is the maximum over all
 reduced-index combinations `r`: it bounds every `x.get (kept j, reduced r)` and is attained. -/
 theorem reduce_max_get (x : COO Int) (axes : List Nat)
-    (transpose_get : ∀ (y : COO Int) (p : List Nat), p.Perm (List.range y.shape.length) → y.WF →
-      (keysOf y.entries).Nodup → ∀ j, InB j (gather y.shape p) →
-      (y.transposeCore p).get j = y.get (gather j (invPerm p)))
     (hwf : x.WF) (hs : SortedLin x.shape x.entries) (hnd : axes.Nodup)
     (hr : ∀ a ∈ axes, a < x.shape.length) (hpos : 0 < prod (gather x.shape axes)) :
     ∃ out : COO Int,
@@ -198,13 +199,10 @@ theorem reduce_max_get (x : COO Int) (axes : List Nat)
   reduceCore_sel_get .max rfl (· ≤ ·)
     (fun a b => by simp only [RedOp.ap]; omega) (fun a b => by simp only [RedOp.ap]; omega)
     (fun a b => by simp only [RedOp.ap]; omega) (fun a b c h1 h2 => Int.le_trans h1 h2) Int.le_refl
-    (fun a => by simp only [RedOp.ap]; omega) x axes transpose_get hwf hs hnd hr hpos
+    (fun a => by simp only [RedOp.ap]; omega) x axes transposeGetInt hwf hs hnd hr hpos
 
 /-- **reduce_min_get**: likewise the minimum. -/
 theorem reduce_min_get (x : COO Int) (axes : List Nat)
-    (transpose_get : ∀ (y : COO Int) (p : List Nat), p.Perm (List.range y.shape.length) → y.WF →
-      (keysOf y.entries).Nodup → ∀ j, InB j (gather y.shape p) →
-      (y.transposeCore p).get j = y.get (gather j (invPerm p)))
     (hwf : x.WF) (hs : SortedLin x.shape x.entries) (hnd : axes.Nodup)
     (hr : ∀ a ∈ axes, a < x.shape.length) (hpos : 0 < prod (gather x.shape axes)) :
     ∃ out : COO Int,
@@ -221,7 +219,7 @@ theorem reduce_min_get (x : COO Int) (axes : List Nat)
   reduceCore_sel_get .min rfl (· ≥ ·)
     (fun a b => by simp only [RedOp.ap]; omega) (fun a b => by simp only [RedOp.ap]; omega)
     (fun a b => by simp only [RedOp.ap]; omega) (fun a b c h1 h2 => Int.le_trans h2 h1) Int.le_refl
-    (fun a => by simp only [RedOp.ap]; omega) x axes transpose_get hwf hs hnd hr hpos
+    (fun a => by simp only [RedOp.ap]; omega) x axes transposeGetInt hwf hs hnd hr hpos
 
 /-- the operand index read by `reduce_add_get`: for a permutation `p = kept ++ axes` of the axes,
 `gather (j ++ r) (invPerm p)` has component `(j ++ r)[m]` at axis `p[m]` — kept coordinates from
